@@ -22,10 +22,18 @@ THEOREMS = [
     (M, "C15.merge_identical_entries", "the same at entry level, for any parser (Fluent, Android)"),
     (M, "C15.unsupported_refused", "a file name no parser pattern matches is refused with MergeNotSupportedError"),
     (M, "C15.refused_iff_unsupported", "MergeNotSupportedError is the answer exactly when no parser pattern matches the name"),
+    (M, "C15.merge_reparses_properties_partial", "RE-PARSE (.properties, every version printed from safe records with distinct keys): merge_channels succeeds and "
+        "PropertiesParser.walk parses the merged text without junk into entities whose keys are exactly the union of the versions' keys, each once, "
+        "every key carrying the record of the newest version that has it"),
+    (M, "C15.merge_reparses_ini_partial", "RE-PARSE (.ini, every version `[sec]` + printed safe ini records with the same section, distinct keys none equal to the "
+        "section name): IniParser.walk parses the merged text without junk into the section and entities with exactly the union of keys, each once, newest record"),
 ]
 PARTIAL = [
-    "reparse_partial (the merged text re-parses without junk into the same entities) is not proved: it is checked by the "
-    "oracle with the real parsers on every generated case (no junk, keys exactly once, texts, order)",
+    "the re-parse (the merged text re-parses without junk into the expected entities) is a THEOREM only for .properties and .ini on the class of printed "
+    "safe records (merge_reparses_properties_partial: every version is `key=value\\n` per record, safe keys/values, distinct keys per version; "
+    "merge_reparses_ini_partial: the same under one `[section]` header shared by all versions, no key equal to the section name; no "
+    "comments, blank lines, escapes; entity ORDER of the re-parse not stated there, it is the dict order of order_spec); for all other layouts and "
+    "formats it is checked by the oracle with the real parsers on every generated case (no junk, keys exactly once, texts, order)",
     "Fluent and Android are covered at entry level only (merge.ents: entries taken from the real parsers); their parsers are external",
     "merge_identical assumes that no two neighbouring entries of a parse are both Whitespace (NoAdjWs): true for the real parsers "
     "because whitespace is matched greedily, not proved for the parser models; counted on every generated version (contract, expected 0)",
@@ -616,6 +624,8 @@ def run(ctx):
         ("dupkey.single.dtd", "a.dtd", ['<!ENTITY a "1">\n<!ENTITY a "2">\n']),
         ("junk.identical", "a.properties", ["??\na=1\n", "??\na=1\n"]),
         ("junk.identical.dtd", "a.dtd", ['<!ENTITY a "1">\n??\n', '<!ENTITY a "1">\n??\n']),
+        ("inisection.keyclash", "a.ini", ["[a]\na=1\n"]),
+        ("inisection.other", "a.ini", ["[S]\na=1\n", "[O]\na=0\nb=2\n"]),
     ]
     pres = pool.pmap("impl.channels", "impl_probe", [[n, ts] for _, n, ts in probes], timeout=5.0)
     for (tag, n, ts), r in zip(probes, pres):
